@@ -8,7 +8,7 @@ ids = sys.argv[1:] or sorted(os.path.basename(d) for d in glob.glob(os.path.join
 def run(i):
     meta_p = os.path.join(V, 'seeded', i, 'meta.json')
     meta = json.load(open(meta_p))
-    prop = meta['breaks_property']
+    prop = meta.get('detect_with', meta['breaks_property'])  # a change may break a clause that another property's check owns
     r = subprocess.run([os.path.join(V, 'tools/try_mutant.sh'), os.path.join(V, 'seeded', i, 'patch.diff'), prop, 'quick'], capture_output=True, text=True)
     out = r.stdout
     sites = sorted(set(re.findall(r'^  (\w[\w-]*) entry=(.*?) site=(.*?) x\d+', out, re.M)))
